@@ -1,4 +1,5 @@
 import Ftp.Model.App
+import Ftp.Lemmas.App
 /-
   C20 - the interactive client survives any input and server, and protects local files.
   Model: `Ftp.App` (main, cmdline_interface::run, command_handler::handle and the handlers) over `Ftp.Client`.
@@ -19,26 +20,32 @@ theorem ends_only_on_exit_or_eof (w : AppWorld) (h0 : w.ended = false) (hs : w.s
     (main w).ended = true ∧ (main w).status = 0 ∧
     ((main w).stdin = [] ∨
       ∃ pre line args, w.stdin = pre ++ line :: (main w).stdin ∧ parseCommand line = .ok .exit args) := by
-  sorry
+  exact L.run_spec _ w h0 hs (Nat.lt_succ_self _)
 
 /-- a command that needs a connection, given while disconnected, answers "Connection is not open." and does nothing
     else: no network event, no input consumed, no file touched -/
 theorem guard_when_disconnected (c : Command) (args : List Bytes) (w : AppWorld) (hc : needsConnection c = true)
     (hd : w.client.connected = false) :
     handle c args w = (.cmdErr (str "Connection is not open."), w) := by
-  sorry
+  cases c <;> first
+    | (simp [needsConnection] at hc; done)
+    | (rw [L.handle_of_ne] <;>
+        simp [handler, L.bind_apply, L.needConnection_apply, hd])
 
 /-- `get` never overwrites or deletes a local entry that already existed, whatever the server does and however the
     call ends -/
 theorem get_preserves_existing_files (args : List Bytes) (w : AppWorld) :
     ∀ e ∈ w.fs, e ∈ (handle .get args w).2.fs := by
-  sorry
+  rw [(L.handle_spec _ _ _).2.2.2.1]
+  exact L.handler_get_fs args w
 
 /-- `get` on a name that already exists is refused before anything is sent -/
 theorem get_refuses_existing (rem loc : Bytes) (w : AppWorld) (hc : w.client.connected = true)
     (he : (lookupFs w.fs loc).isSome = true) :
     handle .get [rem, loc] w = (.cmdErr (str "File '" ++ loc ++ str "' already exists."), w) := by
-  sorry
+  have h : handler .get [rem, loc] w = (.cmdErr (str "File '" ++ loc ++ str "' already exists."), w) := by
+    rw [L.handler_get_two rem loc w hc, L.getBody_apply, if_pos he]
+  rw [L.handle_of_ne (by simp [h]), h]
 
 /-- the state in which `get` starts the transfer: the (empty) file exists, the sink is fresh -/
 def started (w : AppWorld) (loc : Bytes) : AppWorld :=
@@ -53,18 +60,26 @@ theorem get_removes_file_of_refused_download (rem loc : Bytes) (w : AppWorld) (h
     (hd : App.client (download rem true) (started w loc) = (.ok rs, w'))
     (hneg : rs.isPositive = false) :
     (handle .get [rem, loc] w).2.fs = w.fs := by
-  sorry
+  rw [(L.handle_spec _ _ _).2.2.2.1, L.handler_get_two rem loc w hc, L.getBody_apply,
+    if_neg (by simp [hn]), if_neg (by simp [hcr])]
+  exact (L.getRun_fs rem loc w hn).2 rs w' hd hneg
 
 /-- after any library error the connection is dropped -/
 theorem connection_dropped_after_library_error (c : Command) (args : List Bytes) (w w' : AppWorld)
     (h : handle c args w = (.ftpErr, w')) : w'.client.connected = false := by
-  sorry
+  exact L.handle_ftpErr h
 
 /-- the loop never dies of an error: every outcome of a handler is turned into output and the loop goes on, except
     `exit` and the end of input -/
 theorem step_only_ends_on_exit_or_eof (w : AppWorld) (h : (step w).ended = true) (h0 : w.ended = false) :
     w.stdin = [] ∨ (∃ line rest args, w.stdin = line :: rest ∧ parseCommand line = .ok .exit args) ∨
     (∃ line rest, w.stdin = line :: rest ∧ (step w).stdin = [] ) := by
-  sorry
+  cases hstd : w.stdin with
+  | nil => exact .inl rfl
+  | cons line rest =>
+    rcases L.step_cons_spec w line rest hstd h0 with ⟨e1, _⟩ | ⟨_, _, e3⟩ | ⟨_, _, _, args, e4⟩
+    · rw [e1] at h; cases h
+    · exact .inr (.inr ⟨line, rest, rfl, e3⟩)
+    · exact .inr (.inl ⟨line, rest, args, rfl, e4⟩)
 
 end Ftp.Props.C20
